@@ -31,6 +31,7 @@ type CCtx struct {
 	loopHdr func(ord int) int      // loop ordinal -> header block index
 	oldHeaps map[string]string     // heaps "before" (pre-call for callee contracts); nil = function entry
 	pkg      *types.Package        // package whose globals and constants names may refer to when fn is nil (callee contracts)
+	heapOverride map[string]string // aftercall(): heaps right after a call returned
 	freshLo, freshHi string        // callee contract at a call site: fresh(x) means freshLo <= x < freshHi
 }
 
@@ -41,6 +42,12 @@ func (b BindingError) Error() string { return b.msg }
 func bindFail(f string, a ...any) { panic(BindingError{fmt.Sprintf(f, a...)}) }
 
 func (c *CCtx) heap(name string) string {
+	if c.heapOverride != nil {
+		if h, ok := c.heapOverride[name]; ok {
+			return h
+		}
+		return name + "_0"
+	}
 	if c.old {
 		if c.oldHeaps != nil {
 			if h, ok := c.oldHeaps[name]; ok {
@@ -516,6 +523,16 @@ func (c *CCtx) call(n Call) CVal {
 		}
 		parts := strings.SplitN(t, "\x01", 2)
 		return CVal{T: parts[1], Sort: parts[0]}
+	case "aftercall": // aftercall("callee", k, expr): expr evaluated in the heaps right after the k-th call to callee returned
+		key := fmt.Sprintf("%s#%s", c.calleeKey(n.Args[0].(StrLit).V), n.Args[1].(IntLit).V)
+		hs, ok := c.st.callHeaps[key]
+		if !ok {
+			bindFail("aftercall: %s was not called on this path", key)
+		}
+		sub := *c
+		sub.heapOverride = hs
+		sub.old = false
+		return sub.Compile(n.Args[2])
 	case "callghost": // callghost("callee", k, "NAME"): ghost result NAME of the k-th call to callee on this path
 		key := fmt.Sprintf("ghost:%s#%s.%s", c.calleeKey(n.Args[0].(StrLit).V), n.Args[1].(IntLit).V, n.Args[2].(StrLit).V)
 		t, ok := c.st.snaps[key]
